@@ -32,7 +32,7 @@ def obligations(tier):
     obs = []
     for name, kws in SPECS.items():
         for j, kw in enumerate(kws):
-            if tier == "quick" and j >= 2:
+            if tier == "quick" and (j >= 2 or (name == "ADX" and j >= 1)):
                 continue
             n = WARM[name](kw) + 1 + EXTRA[tier][name]
             obs.append(Ob(f"{name}({','.join(f'{k}={v}' for k, v in kw.items())})/n={n}", dict(spec=["ind", name, kw], n=n, posvol=(name == "VWAP")), NL if name != "ADX" else NL_UF,
